@@ -48,6 +48,14 @@ def signature(rej):
     return "C05|%s|%s|%s|%s" % (i["kind"], i["shape"], i["ctx"], rej["why"])
 
 
+def unify_phase():
+    import importlib.util
+    spec = importlib.util.spec_from_file_location("unify_phase", os.path.join(vlib.ROOT, "checks", "unify_phase.py"))
+    m = importlib.util.module_from_spec(spec)
+    spec.loader.exec_module(m)
+    return m
+
+
 def run(ctx):
     tier = ctx.tier
     wd = vlib.workdir(PID)
@@ -56,6 +64,14 @@ def run(ctx):
     vlib.build_harness()
     pool = 3 if tier == "quick" else 4
 
+    if ctx.replay and "unify-trace" in json.load(open(ctx.replay)).get("signature", ""):
+        # a replay of the union-find trace validation (phase 4)
+        unify_phase().run(ctx, ev, verdicts, PID, wd)
+        ev.set(samples=[json.load(open(ctx.replay))["signature"]], traces_validated_against_impl=1)
+        rc = verdicts.finish()
+        ev.violations = len(verdicts.violations)
+        ev.write()
+        return rc
     if ctx.replay:
         rp = json.load(open(ctx.replay))["replay"]
         cases = [rp["case"]]
@@ -139,6 +155,11 @@ def run(ctx):
         if mv.ok:
             vlib.tool_error("negative control accepted: an incomplete trace passed the completeness assumption")
         ev.set(negative_controls_rejected=len(nrej) + len(nrej2) + 2)
+
+        # 4. the deferred shape constraints live in the type checker's union-find: its event log (hooks, --cfg sylt_verif)
+        #    must be a behaviour of SyltUnify, constraint counts included
+        n_unify = unify_phase().run(ctx, ev, verdicts, PID, wd)
+        ev.set(unify_logs_validated=n_unify)
 
     ev.add("states", v.distinct)
     ev.add("transitions", v.generated)
